@@ -28,9 +28,14 @@ EXPRS = [
     ("hash_s", "hash(s)"), ("hash_x", "hash(x)"), ("hash_si", "hash(s, i)"), ("hash_xi", "hash(x, i)"),
     ("raw_s", "raw(s)"), ("str_x", "str(x)"), ("b64enc_s", "b64enc(s)"), ("b64enc_x", "b64enc(x)"), ("b64rt_x", "b64dec(b64enc(x))"), ("b64rt_s", "b64dec(b64enc(s))"),
     ("b64dec_s", "b64dec(s)"), ("isnum", "isnum(s)"), ("num_s", "num(s)"), ("int_s", "int(s)"), ("sat", "s.at(i)"), ("xat", "x.at(i)"),
+    # the same built-ins on a *temporary* operand (they may then work in place)
+    ("tmp:substr2", 'substr(ids(s), i)'), ("tmp:substr3", 'substr(ids(s), i, j)'), ("tmp:lsubstr", 'lsubstr(ids(s), i)'), ("tmp:rsubstr", 'rsubstr(ids(s), i)'),
+    ("tmp:subraw2", "subraw(idb(x), i)"), ("tmp:subraw3", "subraw(idb(x), i, j)"), ("tmp:trim", 'trim(ids(s))'), ("tmp:ltrim", 'ltrim(ids(s))'), ("tmp:rtrim", 'rtrim(ids(s))'),
+    ("tmp:upper", 'upper(ids(s))'), ("tmp:lower", 'lower(ids(s))'), ("tmp:replace", 'replace(ids(s), t, u)'), ("tmp:b64enc_x", "b64enc(idb(x))"), ("tmp:b64rt_x", "b64dec(b64enc(idb(x)))"),
+    ("tmp:hash_x", "hash(idb(x))"), ("tmp:raw_s", 'raw(ids(s))'),
 ]
 INT_EXPRS = [("hex1", "hex(i)"), ("hex2", "hex(i, k)"), ("chr", "chr(i)"), ("raw2", "raw(k, i)"), ("str_i", "str(i)"), ("intstr", "int(str(i))"),
-             ("numstr", "num(str(d))"), ("str_d", "str(d)"), ("isnum_si", "isnum(str(i))"), ("isnum_sd", "isnum(str(d))")]
+             ("numstr", "num(str(d))"), ("str_d", "str(d)"), ("isnum_si", "isnum(str(i))"), ("isnum_sd", "isnum(str(d))"), ("chr_d", "chr(d)")]
 MUT_EXPRS = [("sput", "s.put(j, i)"), ("sconcat", "s.concat(i)"), ("xput", "x.put(j, i)"), ("xconcat", "x.concat(i)"), ("sinsert", "s.insert(j, i)"), ("xinsert", "x.insert(j, i)")]
 
 
@@ -97,7 +102,9 @@ class Sh:
 
     # ---- units ---------------------------------------------------------------------------
     def prelude(self, exprs):
-        pre = ["new A 0", "reg A 53 s0", "reg A 54 s0", "reg A 55 s0", "reg A 58 x0", "reg A 49 i0", "reg A 4a i0", "reg A 4b i0", "reg A 44 n0"]
+        # idb/ids hand their argument back: a call of them is a temporary holding the bytes/string of the variable
+        idf = "function idb(a:bytes) return bytes is begin return a; end; function ids(a:string) return string is begin return a; end;"
+        pre = ["new A 0", "parse A IDF %s" % hx(idf), "run A IDF 100", "reg A 53 s0", "reg A 54 s0", "reg A 55 s0", "reg A 58 x0", "reg A 49 i0", "reg A 4a i0", "reg A 4b i0", "reg A 44 n0"]
         for n, t in exprs:
             pre.append("pexpr A %s %s" % (n, hx(t)))
         return pre
@@ -134,6 +141,7 @@ class Sh:
         if anynull:
             bump(self.res, "null_argument_calls"); return       # totality only: value or BLOC error
         key = case_hash([name] + [repr(args[a]) for a in used])
+        mname = name.split(":", 1)[-1]          # "tmp:substr3" is judged by the model of substr3
         if name == "num_s":
             # isnum(s) is true exactly when num(s) succeeds (isnum was evaluated just before, same s)
             ok = (g[0] == "val" and g[1][0] == "n")
@@ -147,13 +155,13 @@ class Sh:
         if g[0] == "err":
             # which errors are legitimate?  a BLOC error is always within "documented value or BLOC error" except where the model
             # says the call is in the plainly defined domain.
-            if self.defined_domain(name, args):
+            if self.defined_domain(mname, args):
                 V("error-in-domain", "BLOC error %d (%s) for in-domain arguments" % (g[1], g[2]))
             else:
                 self.res["nontrivial"].add(key)
             bump(self.res, "bloc_errors"); return
         v = g[1]
-        why = self.model(name, v, args)
+        why = self.model(mname, v, args)
         if why:
             V(why[0], why[1])
         else:
@@ -336,6 +344,16 @@ class Sh:
                         else: self.res["nontrivial"].add(key)
                     else:
                         if g[0] != "err" or g[1] != self.E["OUT_OF_RANGE"]: V("range", "code outside 0..255 not rejected with OUT_OF_RANGE: %r" % (g[:2],))
+                        else: self.res["nontrivial"].add(key)
+                elif name == "chr_d":
+                    # a decimal code: inside [0, 256) the byte of its integer part, otherwise (negative, >= 256, inf, nan) OUT_OF_RANGE
+                    if d == d and 0.0 <= d < 256.0:
+                        if g[0] != "val" or g[1] != ("s", bytes([int(d)])): V("value", "expected the one-byte string %r, got %r" % (bytes([int(d)]), g))
+                        else: self.res["nontrivial"].add(key)
+                    elif d == d and -1.0 < d < 0.0:
+                        pass    # truncation toward zero makes it 0 or it is rejected: not specified
+                    else:
+                        if g[0] != "err" or g[1] != self.E["OUT_OF_RANGE"]: V("range", "code %r outside 0..255 not rejected with OUT_OF_RANGE: %r" % (d, g[:2]))
                         else: self.res["nontrivial"].add(key)
                 elif name == "raw2":
                     if 0 <= k <= 4096 and 0 <= i <= 255:
